@@ -43,6 +43,22 @@ CHECKS = {
         text="Prior contents (same/different type, with/without expiry, any subset of snapshot keys) x policies replace/ignore/error x RESTORE / native / chunked / "
              "bad-data-format fallback paths x workers 1/4.",
         design="DESIGN.md §3 C20", note=TRUST + "; bidirectional replay path not yet covered"),
+    "C06": dict(level="exploration", engine="fakeredis source role",
+        technique="runtime monitor over the real RedisInput/cache/RedisOutput pipeline against a source double implementing Redis' PSYNC admission rule; target log (history-tagged ids), PSYNC request log and cache ranges checked after each reconnect",
+        text="Enumerated product of source mutation (same id, failover with switch offset, new id, trimmed backlog) x stored resume position class x cache contents x disk/memory cache "
+             "x restart/in-loop reconnect; states the tool cannot reach naturally are constructed and marked. Oracle: continuation exactly from the stored position on the current history, "
+             "or a complete snapshot followed by the stream from its offset; offset convention and CONTINUE/FULLRESYNC answers checked.",
+        design="DESIGN.md §3 C06", note="internal/fakeredis role_source transcribes masterTryPartialResynchronization; " + TRUST),
+    "C17": dict(level="fault_enumeration", engine="fakeredis+hooks",
+        technique="crash sweep over every request prefix of each bookkeeping maintenance operation (real start-up bookkeeping and GC body through build-tag hooks); next start with the new configuration must find a position >= the one before, in the same DB",
+        text="Checkpoint rename, re-key after failover (newOutput and SetRunId), bisync replay-mode switches (all six pairs, states produced by the real tool), stale-checkpoint GC at "
+             "five clock positions; 1-8 non-empty DBs, map-order sampling by repetition; exhaustive per observed request sequence.",
+        design="DESIGN.md §3 C17", note=TRUST + "; HGETALL order of the double is sorted (ids constrained so both orders agree)"),
+    "C19": dict(level="exploration", engine="fakeredis cluster role",
+        technique="runtime monitor: globally ordered per-node effect logs of a multi-node cluster double (routing by independent HASH_SLOT, MIGRATING/IMPORTING/ASK/MOVED/TRYAGAIN semantics) under scripted migration schedules; per-key segment oracle + resume-position clause",
+        text="Real RedisOutput with a cluster client against 3-5 node doubles; schedules: none, MOVED between/mid batch, ASK windows with existing/missing keys, back-and-forth, node added; "
+             "blocking/pipelined, transactional/non-transactional. One known finding (non-atomic node pipelines) is listed in known_findings.json.",
+        design="DESIGN.md §3 C19", note="the double enforces 'executed by the owner'; slots from internal/ref.HashSlot; " + TRUST),
     "C07": dict(level="fault_enumeration", engine="sweep",
         technique="runtime monitor over the ordered list of <runid>_offset writes observed at the target, idle-heavy feeding plans and restart sequences",
         text="Every value written to the resume-position field during base and resumed runs is checked against the generated stream's command-end "
